@@ -65,12 +65,27 @@ fn pool_thread(rx: std::sync::mpsc::Receiver<Job>, excl: Vec<String>, t0: Instan
         let mut nt = false;
         let mut sample = String::new();
         let mut res = Ok(());
-        for piece in job.chunk.chunks(SUB_LEN) {
+        for (round, piece) in job.chunk.chunks(SUB_LEN).enumerate() {
+            // all threads start each sub-case together: they run the same built-in (first
+            // byte shared) on their own arguments at the same time
+            let target = job.parties * (round + 2);
+            job.gate.fetch_add(1, Ordering::SeqCst);
+            let mut spins = 0u32;
+            while job.gate.load(Ordering::SeqCst) < target {
+                spins += 1;
+                if spins % 64 == 0 {
+                    std::thread::yield_now();
+                } else {
+                    std::hint::spin_loop();
+                }
+            }
+            if res.is_err() {
+                continue;
+            }
             let o = crate::worker::guarded(|| bw.run_case(&vec![piece.to_vec()], true));
             match o.verdict {
                 Verdict::Fail => {
                     res = Err((o.sig, o.msg));
-                    break;
                 }
                 _ => {
                     evals += o.evals;
@@ -381,14 +396,21 @@ impl W {
         let n_threads = 2 + case.get(2).and_then(|c| c.get(1)).map(|b| (*b as usize * 3) >> 8).unwrap_or(0);
         let gate = Arc::new(std::sync::atomic::AtomicUsize::new(0));
         let (rtx, rrx) = std::sync::mpsc::channel();
-        // the same or different argument streams per thread
-        let same = case.get(2).and_then(|c| c.get(2)).map(|b| *b < 100).unwrap_or(false);
+        // every thread runs the same sequence of built-ins (first byte of each sub-case is
+        // shared) on its own arguments (the rest of the sub-case differs per thread), or,
+        // in one case out of three, on identical arguments
+        let same = case.get(2).and_then(|c| c.get(2)).map(|b| *b < 85).unwrap_or(false);
+        let base = case.first().unwrap_or(&empty).clone();
+        let other = case.get(1).unwrap_or(&empty).clone();
         for t in 0..n_threads {
-            let src = if same { case.first() } else { case.get(if t % 2 == 0 { 0 } else { 1 }) }.unwrap_or(&empty);
-            let mut chunk = src.clone();
-            if !same {
-                let by = (t * SUB_LEN).min(chunk.len().saturating_sub(1));
-                chunk.rotate_left(by);
+            let mut chunk = base.clone();
+            if !same && t > 0 {
+                for (i, b) in chunk.iter_mut().enumerate() {
+                    if i % SUB_LEN != 0 {
+                        let o = other.get((i + t * 37) % other.len().max(1)).copied().unwrap_or(0);
+                        *b = b.wrapping_add(o).wrapping_add((t as u8).wrapping_mul(29));
+                    }
+                }
             }
             let job = Job { chunk, gate: gate.clone(), parties: n_threads, reply: rtx.clone() };
             if self.pool[t].send(job).is_err() {
